@@ -748,7 +748,7 @@ META = {
                       'arrival point of the 2nd / 3rd request (schedule)'],
     'bounds': {'quick': {'step': 'all states x 11 requests x 2 directions; None-ness: start_time x all-others',
                          'sequence': 'k=3 requests from the constructor', 'overlap': '2 requests, all states, 11x11, slow hops'},
-               'thorough': {'step': 'all 2^7 None-ness patterns, 4 task-slot patterns', 'sequence': 'k=5',
+               'thorough': {'step': 'all 2^7 None-ness patterns, 4 task-slot patterns', 'sequence': 'k=4',
                             'overlap': '2 requests 11x11 slow and fast; 3 requests 11x8x8 slow'}},
     'outside': ['more than three overlapping requests', 'the callers in manager.py (which request they issue when) - only the three '
                 'public TransferManager calls are executed', 'read_cache assigning transfer.state directly',
@@ -780,7 +780,7 @@ def jobs(tier):
                             'requires': ['sequence_end']})
             else:
                 for b in RAW_OPS:
-                    out.append({'harness': 'sequence', 'fn': h_sequence, 'params': {'direction': d, 'first': [a, b], 'k': 5},
+                    out.append({'harness': 'sequence', 'fn': h_sequence, 'params': {'direction': d, 'first': [a, b], 'k': 4},
                                 'requires': ['sequence_end']})
     for d in DIRECTIONS:
         for s in STATES:
